@@ -93,6 +93,18 @@ CHECKS = {
         technique="TLA+ model + TLC exhaustive exploration; spec-to-code replay; TLC trace validation",
         design_ref="4 C18",
         note=TRUST),
+    "C20": dict(
+        category="model_checking",
+        text="TLC enumerates every key of length 1..2 (thorough 3) over byte / code-point class representatives x prefix classes x "
+             "allow_unicode_keys, evaluates spec/KeyRule.tla (own UTF-8, 250-byte limit on the prefixed form, forbidden bytes) and checks "
+             "that the rule is exactly what a server-grade tokenizer needs; the verdict table is concretised with every member of every "
+             "class (all 65,792 byte keys of length 1-2 exhaustively), boundary lengths 247..253 for ASCII / 2- / 3- / 4-byte UTF-8 keys "
+             "with prefixes, every byte at positions of 8- and 250-byte keys, through check_key_helper, Client.check_key, "
+             "PooledClient.check_key, HashClient (plain and ignore_exc) and a Client data call; every concrete record (key, verdict, bytes "
+             "transmitted) is validated byte-for-byte by TLC against KeyRule in both directions (legal => accepted and transmitted as "
+             "prefix+encoding; illegal => MemcacheIllegalInputError).",
+        technique="TLA+ key rule model-checked over class strings; TLC trace validation of ~170k concrete validation records",
+        design_ref="4 C20", note=TRUST + " str keys are well-formed Unicode; prefixed form non-empty."),
 }
 
 NOT_YET = "check not built yet in this round (planned in DESIGN.md section 4); no claim made"
